@@ -63,12 +63,16 @@ structure Facts where
   postRetMismatch : Bool
   /-- `GetUser`: refusal of the rates before `mux.MakeValve` -/
   valveGuard : Int → Int → Bool
+  /-- `ListAllUsers`: the UID put into each listed `UserInfo` is a copy of the key slice that bbolt hands
+  to the `tx.ForEach` callback (`false`: it is that slice itself, i.e. database memory) -/
+  listCopiesUID : Bool
 
 def genFacts : Facts :=
-  ⟨Gen.Store.decGuard_u64, Gen.Store.decGuard_u32, Gen.Store.postRet_mismatch, Gen.Store.valveGuard⟩
+  ⟨Gen.Store.decGuard_u64, Gen.Store.decGuard_u32, Gen.Store.postRet_mismatch, Gen.Store.valveGuard,
+   Gen.Store.listUIDIsCopy⟩
 
 /-- the values of the pinned tree `e2cb346`, written out -/
-def pinnedFacts : Facts := ⟨fun _ => false, fun _ => false, false, fun _ _ => false⟩
+def pinnedFacts : Facts := ⟨fun _ => false, fun _ => false, false, fun _ _ => false, false⟩
 
 /-! ### encoding / decoding of one stored value -/
 
@@ -156,6 +160,35 @@ def listAllUsers (F : Facts) : Store → Except Panic (List (Bytes × Rec))
     let r ← readRec F b
     let l ← listAllUsers F rest
     pure ((uid, r) :: l)
+
+/-! #### whose memory is a returned UID?
+
+bbolt: "byte slices returned from Bolt are only valid during a transaction" — the key slice of a
+`ForEach` callback is a window into the read-only mapping of the database file.  The result of
+`ListAllUsers` is used after `db.View` has returned (`listAllUsersHlr` marshals it; a caller of the
+`UserManager` method keeps it).  Once a later write transaction has committed (freed pages are recycled)
+or the file has been closed (the mapping is gone) the window shows whatever is there now. -/
+
+/-- a `[]byte` inside a value the manager returned -/
+inductive Held
+  | own (bs : Bytes)     -- memory of its own (a copy, or the caller's argument)
+  | txmem (bs : Bytes)   -- a window into the database mapping that showed `bs` during the transaction
+deriving DecidableEq, Repr
+
+/-- what the slice reads as when it is looked at again.  `mem bs` = the present content of the window that
+showed `bs` inside the transaction: the identity as long as nothing has been committed or closed since,
+otherwise not determined by the operation sequence (bbolt's page reuse; an unmapped window faults). -/
+def Held.read (mem : Bytes → Bytes) : Held → Bytes
+  | .own bs => bs
+  | .txmem bs => mem bs
+
+/-- the value `ListAllUsers` returns, with the provenance of each UID -/
+def listHeld (F : Facts) (l : List (Bytes × Rec)) : List (Held × Rec) :=
+  l.map fun p => (if F.listCopiesUID then Held.own p.1 else Held.txmem p.1, p.2)
+
+/-- the caller looks at a list result it still holds -/
+def rereadList (mem : Bytes → Bytes) (h : List (Held × Rec)) : List (Bytes × Rec) :=
+  h.map fun p => (p.1.read mem, p.2)
 
 /-- `DeleteUser`: `none` = `tx.DeleteBucket` failed (no such bucket), nothing changed -/
 def deleteUser (s : Store) (uid : Bytes) : Option Store :=
